@@ -19,6 +19,8 @@ type Clause struct {
 type LoopSpec struct {
 	Invariants []*Clause
 	Decreases  *Clause
+	Frame      bool
+	FrameWhere string
 }
 
 type Guard struct {
@@ -346,6 +348,18 @@ func (cs *ContractSet) ParseContractFile(path, pkgPath string) error {
 					return fmt.Errorf("%s: bad loop ordinal", where)
 				}
 				kw2, rest2 := splitKW(strings.TrimSpace(rest[i+1:]))
+				if kw2 == "frame" {
+					// loop N: frame — objects allocated before the function was entered keep their
+					// contents in every heap map the loop modifies (asserted and assumed)
+					ls := cur.Loops[n]
+					if ls == nil {
+						ls = &LoopSpec{}
+						cur.Loops[n] = ls
+					}
+					ls.Frame = true
+					ls.FrameWhere = where
+					continue
+				}
 				c, err := mkClause(rest2)
 				if err != nil {
 					return err
